@@ -17,11 +17,16 @@ ASSUMPTIONS = ['theorems over the reals for every oracle satisfying the contract
                'instantiations are covered by the tolerance-checked correspondence and the probe only',
                'neighbourhoods with relative eigen-gap (l1-l0)/lmax <= 1e-6 or with (nearly) tied k-th / (k+1)-th neighbour '
                'distances are outside the property\'s quantifier: only unit length and orientation are checked there',
-               'tolerances: 1e-9 (double) / 1e-4 (float) plus the first-order rounding bound 64 eps (tr + |p| sqrt(tr))/(l1-l0)']
+               'tolerances: 1e-9 (double) / 1e-4 (float) plus the first-order rounding bound 64 eps (tr + |p| sqrt(tr))/(l1-l0)',
+               'histories (one caller-owned kd-tree serving estimators with different k, one estimator serving several point '
+               'sets): `history` / `use_after_history` hold for every scalar type and every k-NN oracle answering a query with '
+               'k indices (the length clause of IsKnn); the probe judges every estimation of a history as a call of its own']
 EXPLANATION = ('proof (under the k-NN and eigen-solver contracts) of unit length, orientation, least variance, curvature range and '
                'planar exactness on the Lean model + differential correspondence within tolerance + property probe against '
                'long-double brute-force references')
 
+# ops:  nrm.compute T k overload init n coords...   one call on objects built for it
+#       nrm.cloud T n coords... | nrm.est T k | nrm.use T overload init   objects kept by the case (histories, see harness/c09.cpp)
 TYPES = ['c2d', 'c3d', 'h2d', 'h3d', 'c2f', 'c3f', 'h2f', 'h3f']
 OVERLOADS = ['n', 'nt', 'c', 'ct', 'r', 'rt']
 INITS = ['default', 'zero', 'junk']
@@ -170,7 +175,147 @@ def gen_cases(rng, tier):
                 rots.append(R)
         meta.update(ty=ty, k=k, ov=ov, rots=rots)
         cases.append({'name': 'cloud-%s-%s-%d' % (ty, shape, i), 'lines': lines, 'meta': meta})
+    for i in range(24 if tier == 'quick' else 480):
+        cases.append(_history_case(rng, tier, i, TYPES[i % 8]))
+    cases.append(_protocol_case(rng))
     return cases
+
+
+def _protocol_case(rng):
+    """the kept objects at the edges of the protocol: nothing kept yet, k = 0, k >= n (outside the asserted precondition:
+    refused on both sides), k + 1 = n, another point type's objects, unknown overload / initialisation; the objects
+    survive a refused op"""
+    ty = rng.choice(['c2d', 'c3f'])
+    other = 'c3d' if ty == 'c2d' else 'c2f'
+    dim = _dim(ty)
+    tok = S if ty[2] == 'f' else D
+    pts, _ = _cloud(rng, dim, 6, 'blob')
+    c5 = 'nrm.cloud %s 5 %s' % (ty, ' '.join(tok(c) for p in pts[:5] for c in p))
+    c6 = 'nrm.cloud %s 6 %s' % (ty, ' '.join(tok(c) for p in pts for c in p))
+    u = 'nrm.use %s nt default' % ty
+    lines = [u, 'nrm.est %s 0' % ty, 'nrm.est %s 5' % ty, u, c5, u, c6, u, 'nrm.use %s nt default' % other,
+             'nrm.use %s xx default' % ty, 'nrm.use %s nt other' % ty, 'nrm.cloud %s 0' % ty, c6 + ' ' + tok(1.0), u]
+    return {'name': 'history-protocol-' + ty, 'lines': lines,
+            'meta': {'history': True, 'ty': ty, 'lm': [None] * len(lines), 'refused': [0, 1, 3, 5, 8, 9, 10, 11, 12]}}
+
+
+def _history_case(rng, tier, i, ty):
+    """ONE caller-owned kd-tree and ONE estimator object at a time, kept across the ops of the case: estimators with
+    different k (growing and shrinking) run through the same tree, one estimator runs through several trees (a
+    permutation of the same points, another cloud of the same size, a cloud of another size), tree and non-tree
+    overloads interleaved.  The property is per call: every `nrm.use` is judged on the point set and k in force."""
+    dim = _dim(ty)
+    lines, lm = [], []
+
+    def add(line, m=None):
+        lines.append(line)
+        lm.append(m)
+
+    def cloud(n, shape):
+        pts, m = _cloud(rng, dim, n, shape)
+        return pts, m
+
+    def put_cloud(pts):
+        tok = S if ty[2] == 'f' else D
+        add('nrm.cloud %s %d %s' % (ty, len(pts), ' '.join(tok(c) for p in pts for c in p)))
+
+    def use(m, tree=None):
+        if tree is None:
+            tree = rng.chance(0.75)
+        ov = rng.choice(['nt', 'ct', 'rt'] if tree else ['n', 'c', 'r'])
+        add('nrm.use %s %s %s' % (ty, ov, rng.choice(INITS)), m)
+
+    # the neighbourhood sizes of the successive estimators: both directions occur in every case
+    pat = rng.below(4) if i >= 8 else 0            # every point type gets a history that grows first
+    if pat == 0:                                   # grow, shrink
+        a = rng.int(3, 14); b = rng.int(a + 2, 30); ks = [a, b, rng.int(3, b - 1)]
+    elif pat == 1:                                 # shrink, grow beyond the first
+        a = rng.int(6, 26); ks = [a, rng.int(3, a - 2), rng.int(a + 1, 30)]
+    elif pat == 2:                                 # extremes
+        ks = rng.choice([[3, 30, 3], [30, 3, 30], [3, 4, 3], [29, 30, 29]])
+    else:
+        ks = [rng.int(3, 30) for _ in range(rng.int(3, 4))]
+        if len(set(ks)) == 1:
+            ks[1] = 3 if ks[0] > 16 else 30
+    kmax = max(ks)
+    r = rng.below(10)
+    n = kmax + 1 if r == 0 else (rng.int(kmax + 1, 300) if r < 3 else rng.int(kmax + 1, 120))
+    shape = ['planar', 'piecewise', 'piecewise', 'curved', 'curved', 'noisy', 'noisy', 'blob'][rng.below(8)]
+    pts, m = cloud(n, shape)
+    if rng.chance(0.5):
+        put_cloud(pts)
+        add('nrm.est %s %d' % (ty, ks[0]))
+    else:
+        add('nrm.est %s %d' % (ty, ks[0]))
+        put_cloud(pts)
+    use(m, tree=True)
+    for k in ks[1:]:
+        add('nrm.est %s %d' % (ty, k))
+        use(m, tree=True if rng.chance(0.8) else None)
+        if rng.chance(0.25):
+            use(m)                                 # the same estimator again, same tree or its own
+    k = ks[-1]
+    if rng.chance(0.7):
+        # the estimator in hand meets other point sets / trees: only through the overloads that build their own tree
+        # (first on the point set in hand), only through caller-owned trees, or mixed
+        mode = rng.below(3)
+        via = {0: False, 1: True, 2: None}[mode]
+        if mode == 0:
+            use(m, tree=False)
+        for _ in range(rng.int(1, 2)):
+            v = rng.below(3)
+            if v == 0:                             # the same points in another order
+                order = list(range(len(pts)))
+                for j in range(len(order) - 1, 0, -1):
+                    t = rng.below(j + 1)
+                    order[j], order[t] = order[t], order[j]
+                pts = [pts[j] for j in order]
+            elif v == 1:                           # another cloud of the same size
+                shape = ['planar', 'piecewise', 'curved', 'noisy', 'blob'][rng.below(5)]
+                pts, m = cloud(len(pts), shape)
+            else:                                  # another size
+                shape = ['planar', 'piecewise', 'curved', 'noisy', 'blob'][rng.below(5)]
+                pts, m = cloud(rng.int(k + 1, 140), shape)
+            put_cloud(pts)
+            use(m, tree=via)
+        if rng.chance(0.6):
+            k2 = rng.choice([3, 30, rng.int(3, 30)])
+            if k2 < len(pts):
+                add('nrm.est %s %d' % (ty, k2))
+                use(m, tree=True)
+    return {'name': 'history-%s-%d' % (ty, i), 'lines': lines, 'meta': {'history': True, 'ty': ty, 'ks': ks, 'lm': lm}}
+
+
+# ------------------------------------------------------------------------------------------- histories
+_VIRT = [None, None]
+
+
+def _virtual(case):
+    """per op of the case: the `nrm.compute` line it is to be judged as — `nrm.compute` itself; for `nrm.use` the point
+    set of the last `nrm.cloud` and the k of the last `nrm.est` of that type (the property is about each call, whatever
+    preceded it on the same objects); None for `nrm.cloud` / `nrm.est` (answer `ok ...`)"""
+    if _VIRT[0] is case['lines']:
+        return _VIRT[1]
+    cloud, kk, out = {}, {}, []
+    for l in case['lines']:
+        tk = l.split()
+        v = None
+        if tk and tk[0] == 'nrm.compute':
+            v = l
+        elif len(tk) >= 3 and tk[0] == 'nrm.cloud' and tk[1] in TYPES and tk[2].isdigit():
+            # refused ops (malformed: answered `bad-op` by both sides) leave the kept objects alone
+            pre = 's' if tk[1][2] == 'f' else 'd'
+            if int(tk[2]) > 0 and len(tk) == 3 + int(tk[2]) * _dim(tk[1]) and all(x[0] == pre and x[1:].isdigit() for x in tk[3:]):
+                cloud[tk[1]] = (tk[2], tk[3:])
+        elif len(tk) == 3 and tk[0] == 'nrm.est' and tk[1] in TYPES and tk[2].isdigit():
+            if int(tk[2]) > 0:
+                kk[tk[1]] = tk[2]
+        elif len(tk) == 4 and tk[0] == 'nrm.use' and tk[1] in cloud and tk[1] in kk and tk[2] in OVERLOADS and tk[3] in INITS:
+            if int(kk[tk[1]]) < int(cloud[tk[1]][0]):
+                v = ' '.join(['nrm.compute', tk[1], kk[tk[1]], tk[2], tk[3], cloud[tk[1]][0]] + cloud[tk[1]][1])
+        out.append(v)
+    _VIRT[0], _VIRT[1] = case['lines'], out
+    return out
 
 
 # ------------------------------------------------------------------------------------------- parsing
@@ -257,6 +402,10 @@ def _inv(x):
 def compare(case, li, op, impl, model):
     if impl in ('bad-op',) or model in ('bad-op',):
         return impl == model
+    if not op.startswith('nrm.compute'):
+        op = _virtual(case)[li]
+        if op is None:                      # nrm.cloud / nrm.est: `ok n` / `ok`
+            return impl == model
     a = _parse(op, impl, True)
     b = _parse(op, model, False)
     if a is None or b is None or len(a) != len(b):
@@ -288,15 +437,32 @@ def oracle(case, out, stats):
     fails = []
     meta = case['meta']
     parsed = []
-    for line, o in zip(case['lines'], out):
+    virt = _virtual(case)
+    for li, (raw, o) in enumerate(zip(case['lines'], out)):
+        line = virt[li]
+        if li in meta.get('refused', ()) and o == 'bad-op':
+            stats['history_refused_ops'] = stats.get('history_refused_ops', 0) + 1
+            parsed.append(None)
+            continue
+        if line is None:
+            # nrm.cloud / nrm.est (objects kept by the case); a crash here is still a crash inside the property's domain
+            stats['history_setup_ops'] = stats.get('history_setup_ops', 0) + 1
+            if not o.startswith('ok') and len(fails) < 5:
+                fails.append({'kind': 'outcome-' + o.split()[0] if o else 'outcome-empty', 'detail': 'op %d: %s ... -> %s' % (
+                    li, ' '.join(raw.split()[:3]), o[:40]), 'fields': {'type': (raw.split() + ['', ''])[1], 'op': raw.split()[0]}})
+            parsed.append(None)
+            continue
         tk = line.split()
         ty, k = tk[1], int(tk[2])
         dim = _dim(ty)
         stats['clouds'] = stats.get('clouds', 0) + 1
+        if raw is not line:
+            stats['history_estimations'] = stats.get('history_estimations', 0) + 1
+        where = ' '.join(tk[:6]) if raw is line else 'op %d of the history: %s (k = %d, n = %s)' % (li, raw, k, tk[5])
 
         def bad(kind, detail, **fields):
             if len(fails) < 5:
-                fails.append({'kind': kind, 'detail': '%s ... -> %s' % (' '.join(tk[:6]), detail), 'fields': dict(fields, type=ty, init=tk[4])})
+                fails.append({'kind': kind, 'detail': '%s ... -> %s' % (where, detail), 'fields': dict(fields, type=ty, init=tk[4])})
         if o in ('abort', 'hang', 'exception', 'skipped', 'bad-op'):
             bad('outcome-' + o, 'unexpected outcome')
             parsed.append(None)
@@ -336,12 +502,12 @@ def oracle(case, out, stats):
                 bad('curvature-value', 'point %d: curvature %r, reference l0/trace %r' % (i, d['curv'], d['rcurv']))
             if 'rel' in d and not abs(_inv(d['rel']) - d['rrelinv']) <= _rtol(ty, d, p):
                 bad('reliability-value', 'point %d: reliability %r, reference inverse %r' % (i, d['rel'], d['rrelinv']))
-            if meta.get('shape') == 'planar':
+            lmeta = meta['lm'][li] if meta.get('history') else meta
+            if lmeta and lmeta.get('shape') == 'planar':
                 # stored coordinates are rounded: allow for the actual distance of the stored points from the plane
                 R = None
-                li = case['lines'].index(line)
-                u, c = meta['u'], meta['c']
-                if li > 0:
+                u, c = lmeta['u'], lmeta['c']
+                if li > 0 and not meta.get('history'):
                     R = meta['rots'][li - 1]
                     u = [sum(R[a][b] * u[b] for b in range(dim)) for a in range(dim)]
                 off = 4 * _eps(ty) * pn
@@ -353,7 +519,7 @@ def oracle(case, out, stats):
                     bad('planar-exact', 'point %d: curvature %r on a planar cloud' % (i, d['curv']))
                 stats['planar_points'] = stats.get('planar_points', 0) + 1
     # rotational equivariance: line j > 0 is line 0 rotated by meta['rots'][j-1]
-    if parsed and parsed[0] is not None and meta.get('rots'):
+    if parsed and parsed[0] is not None and meta.get('rots') and not meta.get('history'):
         ty = case['lines'][0].split()[1]
         dim = _dim(ty)
         base_recs, base_pts = parsed[0]
